@@ -35,3 +35,9 @@ def axis_range(array, dim):
     if key not in _RANGES:
         _RANGES[key] = (array[dim].min(), array[dim].max())  # G.1: keyed by the identity of a possibly temporary object
     return _RANGES[key]
+
+
+def relabel(axis, step):
+    attrs = axis.attrs
+    attrs["step"] = step  # G.3: the caller's axis object is changed in place through an alias
+    return dict(attrs)
